@@ -83,10 +83,17 @@ func runC03(t *simrt.Tape, o Opts) Outcome {
 		h.weights = [opKinds]int{opEncrypt: 20, opDecrypt: 4, opOpen: 2, opCloseSess: 1, opAdvance: 2, opRevoke: 1, opForeignRotate: 1, opRestart: 1, opNewProc: 1}
 		h.payloadClasses = []int{2, 3, 0, 1}
 		h.newProc()
+		if t.Choose(4, "faulty") == 1 {
+			// secure-memory allocation, KMS and metastore read failures: whatever is emitted by the
+			// operations that still succeed obeys the same discipline
+			enableRandomFaults(w, t, []string{"alloc.err", "kms.err", "ms.err"}, h.base.Expire, h.base.Revoke)
+			w.Faults.Kinds["alloc.err"] = true
+			w.Faults.Kinds["ms.readonly-faults"] = true
+		}
 		payloadFP := map[string]bool{}
 		h.hooks.afterEncrypt = func(se *world.Sess, rec *world.Rec, op *world.OpRec) {
 			if rec == nil {
-				if op.Panic == "" {
+				if op.Panic == "" && op.Faulted == 0 {
 					w.Violate("encrypt-failed", "encrypt-failed/no-fault", "encrypt failed: %v", op.Err)
 				}
 				return
